@@ -28,7 +28,11 @@ Proved here (for all inputs unless marked):
   `∀ cfg chunks r, parseDocument cfg chunks = .ok r → Skeleton r.dom`
   (DOM-shape invariant indexed by insertion mode) is not proved; it is carried by the oracle on the
   real code and by the model/code correspondence;
-* `C06_frameset_skeleton_example`, and the `example`s — non-vacuity.
+* `C06_frameset_skeleton_example`, and the `example`s — non-vacuity;
+* `C06_witness_frameset_reconstruct` — **the property as stated does not hold**: for
+  `<b><frameset></frameset></html>␠` the model (and the real code, and the standard's algorithm)
+  put a reconstructed `b` under `html` next to `head` and `frameset`.  `framesetGapState` is the
+  decidable trigger a full proof has to exclude.
 -/
 namespace H5V.Props.C06
 open H5V.Model.Dom hiding Str
@@ -230,21 +234,46 @@ def domOf (r : Except String State) : Dom := match r with | .ok s => s.dom | .er
 def okRun (r : Except String State) : Bool := match r with | .ok _ => true | .error _ => false
 
 
+
 def eofOnly : List (TokToken × Nat) := [(.eof, 1)]
+
+/-- one evaluation of the model, then all the facts about its result -/
+def closureCheck (opts : Opts) (toks : List (TokToken × Nat)) (extra : Dom → Bool) : Bool :=
+  match parseTokens opts toks with
+  | .ok s => skeletonOk s.dom && extra s.dom
+  | .error _ => false
+
+theorem closureCheck_sound {opts : Opts} {toks : List (TokToken × Nat)} {extra : Dom → Bool}
+    (h : closureCheck opts toks extra = true) :
+    okRun (parseTokens opts toks) = true ∧ Skeleton (domOf (parseTokens opts toks)) ∧
+      extra (domOf (parseTokens opts toks)) = true := by
+  unfold closureCheck at h
+  cases hp : parseTokens opts toks with
+  | error e => simp [hp] at h
+  | ok s => simpa [hp, okRun, domOf, Skeleton] using h
+
+
+theorem closureCheck_initial (opts : Opts) :
+    closureCheck opts eofOnly (fun d => htmlOf d == some 1 && d.childrenOf 1 == [2, 3] &&
+      d.quirks == (if opts.iframeSrcdoc then .noQuirks else .quirks)) = true := by
+  obtain ⟨e, sc, sd, dd, q⟩ := opts
+  cases e <;> cases sc <;> cases sd <;> cases dd <;> cases q <;> decide +kernel
 
 /-- For every option set, a document that consists of EOF alone gets `html`, `head` and `body`
 synthesised (Initial → BeforeHtml → BeforeHead → InHead → AfterHead → InBody "anything else"
-chain) and satisfies `Skeleton`; the builder does not panic.
+chain): the builder does not panic, the result satisfies `Skeleton`, `html` (node 1) has exactly
+the children `head`, `body` (nodes 2, 3), and the sink is told "quirks" unless the document is an
+iframe srcdoc document (then it is told nothing: the sink keeps its default).
 _partial: the same closure from every other insertion mode / every reachable state is not proved
 (finite instances below, the general case by the oracle on the real code). -/
 theorem C06_eof_closure_initial_partial (opts : Opts) :
     okRun (parseTokens opts eofOnly) = true ∧ Skeleton (domOf (parseTokens opts eofOnly)) ∧
     htmlOf (domOf (parseTokens opts eofOnly)) = some 1 ∧
     (domOf (parseTokens opts eofOnly)).childrenOf 1 = [2, 3] ∧
-    (domOf (parseTokens opts eofOnly)).quirks =
-      (if opts.iframeSrcdoc then opts.quirksMode else .quirks) := by
-  obtain ⟨e, sc, sd, dd, q⟩ := opts
-  cases e <;> cases sc <;> cases sd <;> cases dd <;> cases q <;> decide +kernel
+    (domOf (parseTokens opts eofOnly)).quirks = (if opts.iframeSrcdoc then .noQuirks else .quirks) := by
+  obtain ⟨h1, h2, h3⟩ := closureCheck_sound (closureCheck_initial opts)
+  simp only [Bool.and_eq_true, beq_iff_eq] at h3
+  exact ⟨h1, h2, h3.1.1, h3.1.2, h3.2⟩
 
 /-! ### finite instances (kernel-evaluated): EOF closure from a canonical state of every insertion mode -/
 
@@ -252,7 +281,8 @@ def sTag (n : String) : TokToken × Nat := (.tag { kind := .startTag, name := n.
 def eTag (n : String) : TokToken × Nat := (.tag { kind := .endTag, name := n.toList }, 1)
 def txt (s : String) : TokToken × Nat := (.chars s.toList, 1)
 
-/-- token prefixes reaching each of the 21 insertion modes (and Text / InTableText with pending text) -/
+/-- token prefixes reaching each of the 21 insertion modes (Text / InTableText with pending text,
+formatting elements around a block, an SVG HTML integration point) -/
 def modePrefixes : List (List (TokToken × Nat)) := [
   [], [(.doctype { name := some "html".toList }, 1)], [sTag "html"], [sTag "head"],
   [sTag "head", sTag "noscript"], [sTag "head", eTag "head"], [sTag "body"], [sTag "title", txt "t"],
@@ -263,17 +293,90 @@ def modePrefixes : List (List (TokToken × Nat)) := [
   [sTag "body", eTag "body", eTag "html"], [sTag "frameset", eTag "frameset", eTag "html"],
   [sTag "b", txt "a", sTag "p", txt "b", eTag "b", txt "c"], [sTag "svg", sTag "desc", txt "d"]]
 
+theorem closureCheck_modes :
+    (modePrefixes.all fun p => [true, false].all fun sc =>
+      closureCheck { scriptingEnabled := sc } (p ++ eofOnly) (fun _ => true)) = true := by
+  decide +kernel
+
+/-- EOF after each of the canonical prefixes, scripting on and off: no panic, `Skeleton` holds
+(finite instances; not a theorem about all states of these modes) -/
 theorem C06_eof_closure_modes_example :
     ∀ p ∈ modePrefixes, ∀ scripting ∈ [true, false],
       okRun (parseTokens { scriptingEnabled := scripting } (p ++ eofOnly)) = true ∧
       Skeleton (domOf (parseTokens { scriptingEnabled := scripting } (p ++ eofOnly))) := by
-  decide +kernel
+  intro p hp sc hsc
+  have h := closureCheck_modes
+  rw [List.all_eq_true] at h
+  have h2 := h p hp
+  rw [List.all_eq_true] at h2
+  obtain ⟨h3, h4, _⟩ := closureCheck_sound (h2 sc hsc)
+  exact ⟨h3, h4⟩
 
-/-- a frameset document: `head`, `frameset`, several `noframes` -/
+/-- a frameset document: `head`, `frameset`, several `noframes`, a comment after `</html>` -/
 theorem C06_frameset_skeleton_example :
     Skeleton (domOf (parseTokens {} [sTag "frameset", eTag "frameset", sTag "noframes", eTag "noframes",
-      sTag "noframes", txt "n", eTag "noframes", eTag "html", (.comment "c".toList, 1), (.eof, 1)])) := by
+      sTag "noframes", txt "n", eTag "noframes", eTag "html", (.comment "c".toList, 1), (.eof, 1)])) :=
+  (closureCheck_sound (extra := fun _ => true) (by decide +kernel)).2.1
+
+/-! ### the gap: a formatting element open when `<frameset>` replaces the body
+
+**Finding (confirmed on the real code through the harness; the standard's algorithm behaves the same).**
+`<b><frameset></frameset></html>␠`: the "in body" `<frameset>` rule (rules.rs:463) removes `body`
+and truncates the stack but leaves `b` in the list of active formatting elements; the whitespace
+after `</html>` is handled by "after after frameset" *using the in-body rules* (rules.rs:1595),
+which reconstruct the active formatting elements at the current node — `html`.  The result has
+`head`, `frameset` **and `b`** as element children of `html`. -/
+
+def witnessTokens : List (TokToken × Nat) :=
+  [sTag "b", sTag "frameset", eTag "frameset", eTag "html", txt " ", (.eof, 1)]
+
+theorem C06_witness_frameset_reconstruct :
+    okRun (parseTokens {} witnessTokens) = true ∧ ¬ Skeleton (domOf (parseTokens {} witnessTokens)) := by
+  have h : (okRun (parseTokens {} witnessTokens) && !skeletonOk (domOf (parseTokens {} witnessTokens))) = true := by
+    decide +kernel
+  simp only [Bool.and_eq_true, Bool.not_eq_true'] at h
+  exact ⟨h.1, by simp [Skeleton, h.2]⟩
+
+/-- without the trailing whitespace (nothing is reconstructed) the same document is fine -/
+example : skeletonOk (domOf (parseTokens {} [sTag "b", sTag "frameset", eTag "frameset", eTag "html", (.eof, 1)])) = true := by
   decide +kernel
 
+/-- the state-level trigger of the gap: `<frameset>` accepted in "in body" (frameset-ok, a `body`
+second on the stack) while the list of active formatting elements is not empty.  A proof of
+`Skeleton` for all documents has to exclude runs that pass through such a state (or the source has
+to clear the list there, deviating from the standard). -/
+def framesetGapState (s : State) : Bool :=
+  s.framesetOk && !s.activeFormatting.isEmpty && s.openElems.length > 1
+
+-- non-vacuity of the predicate: it rejects trees that break a clause
+section
+def qn (s : String) : QualName := { ns := nsHtml, loc := s.toList }
+def build (ops : List SinkOp) : Dom := match Dom.new.applyAll ops with | .ok (d, _) => d | .error _ => Dom.new
+/-- html without body -/
+example : skeletonOk (build [.createElement (qn "html") [] {}, .append 0 (.node 1),
+    .createElement (qn "head") [] {}, .append 1 (.node 2)]) = false := by decide +kernel
+/-- text under the document -/
+example : skeletonOk (build [.append 0 (.text ['x']), .createElement (qn "html") [] {}, .append 0 (.node 2),
+    .createElement (qn "head") [] {}, .append 1 (.node 3), .createElement (qn "body") [] {}, .append 1 (.node 4)]) = false := by
+  decide +kernel
+/-- two adjacent text siblings (exposed by `remove_from_parent`) -/
+example : skeletonOk (build [.createElement (qn "html") [] {}, .append 0 (.node 1),
+    .createElement (qn "head") [] {}, .append 1 (.node 2), .createElement (qn "body") [] {}, .append 1 (.node 3),
+    .append 3 (.text ['a']), .createElement (qn "b") [] {}, .append 3 (.node 5), .append 3 (.text ['c']),
+    .removeFromParent 5]) = false := by decide +kernel
+/-- the same tree before the removal is fine -/
+example : skeletonOk (build [.createElement (qn "html") [] {}, .append 0 (.node 1),
+    .createElement (qn "head") [] {}, .append 1 (.node 2), .createElement (qn "body") [] {}, .append 1 (.node 3),
+    .append 3 (.text ['a']), .createElement (qn "b") [] {}, .append 3 (.node 5), .append 3 (.text ['c'])]) = true := by
+  decide +kernel
+/-- non-vacuity of `C06_no_adjacent_text_run_partial`: create `p`, append it, append text twice
+(the second text is merged into the first) -/
+example : ∃ d', SafeRun Dom.new [.createElement (qn "p") [] {}, .append 0 (.node 1), .append 1 (.text ['a']),
+    .append 1 (.text ['b'])] d' :=
+  ⟨_, .cons (out := .node 1) (by decide +kernel) trivial rfl
+    (.cons (out := .unit) (by decide +kernel) trivial rfl
+      (.cons (out := .unit) (by decide +kernel) trivial rfl
+        (.cons (out := .unit) (by decide +kernel) trivial rfl .nil)))⟩
+end
 
 end H5V.Props.C06
